@@ -646,6 +646,74 @@ pub fn run(ctx: &Ctx) {
         "deepnone",
     );
 
+    // one subject compared with several alternatives (`x == a or x == b`, `x != a and x != b`, `[a, b] contains x`): a
+    // subject that is None equals none of them, whichever of them is None too, however the subject is spelled
+    let alternatives: Vec<EvalCase> = {
+        let facts = pool::map(&[
+            ("vn", Value::None),
+            ("wn", Value::None),
+            ("vs", Value::String("W".into())),
+            ("vm", pool::map(&[("a", Value::Int(1)), ("n", Value::None)])),
+        ]);
+        let mut symbols = std::collections::BTreeMap::new();
+        symbols.insert("sn".to_string(), Value::None);
+        symbols.insert("sw".to_string(), Value::String("W".into()));
+        let subjects: Vec<Expr> = vec![
+            Expr::reff("vn"),
+            Expr::symbol("sn"),
+            Expr::index(Expr::reff("vm"), Index::Map("n".into())),
+            Expr::index(Expr::reff("vm"), Index::Map("nokey".into())),
+            Expr::reff("vs"),
+            Expr::symbol("sw"),
+            Expr::index(Expr::reff("vm"), Index::Map("a".into())),
+        ];
+        let candidates: Vec<Expr> = vec![
+            Expr::reff("wn"),
+            Expr::value(Value::None),
+            Expr::value("W".to_string()),
+            Expr::value(1),
+            Expr::symbol("sn"),
+            Expr::index(Expr::reff("vm"), Index::Map("nokey".into())),
+        ];
+        let mut out = vec![];
+        for x in &subjects {
+            for a in &candidates {
+                for b in &candidates {
+                    let eqs = [Expr::eq(x.clone(), a.clone()), Expr::eq(x.clone(), b.clone()), Expr::eq(x.clone(), Expr::value(77))];
+                    let nes = [Expr::neq(x.clone(), a.clone()), Expr::neq(x.clone(), b.clone())];
+                    for e in [
+                        Expr::or(eqs[0].clone(), eqs[1].clone()),
+                        Expr::or(Expr::or(eqs[0].clone(), eqs[1].clone()), eqs[2].clone()),
+                        Expr::or(eqs[0].clone(), Expr::or(eqs[1].clone(), eqs[2].clone())),
+                        Expr::and(nes[0].clone(), nes[1].clone()),
+                        Expr::and(eqs[0].clone(), eqs[1].clone()),
+                        Expr::or(nes[0].clone(), nes[1].clone()),
+                        Expr::not(Expr::or(eqs[0].clone(), eqs[1].clone())),
+                        Expr::contains(Expr::Vec(vec![a.clone(), b.clone()]), x.clone()),
+                        Expr::iif(Expr::or(eqs[0].clone(), eqs[1].clone()), Expr::value("yes".to_string()), Expr::value("no".to_string())),
+                    ] {
+                        out.push(EvalCase { expr: e, facts: facts.clone(), fns: Default::default(), symbols: symbols.clone() });
+                    }
+                }
+            }
+        }
+        out
+    };
+    ctx.enumerate(
+        "alternatives-on-one-subject",
+        alternatives.len() as u64,
+        true,
+        |i, acc| {
+            acc.cell(&format!("alternatives:{}", root_sig(&alternatives[i as usize].expr)), true);
+            if i % 97 == 0 {
+                acc.sample("alternatives", || alternatives[i as usize].render().chars().take(200).collect());
+            }
+            check_deep(&alternatives[i as usize])
+        },
+        |i| alternatives[i as usize].to_json(),
+        "deepnone",
+    );
+
     let nsi = struct_input_exprs().len() as u64;
     ctx.enumerate(
         "none-fields-of-a-struct",
